@@ -265,6 +265,18 @@ func (g *Graph) NilnessOf(e ast.Expr, p Point) int {
 							k = g.NilnessOf(d.RHS, d.At)
 						}
 					}
+					if k == 0 && (d.Kind == DefPlain || d.Kind == DefTuple) {
+						// the value of THIS definition was tested between the
+						// definition and p on every path
+						if txt, ok := f.DefText(d); ok {
+							from := g.After(d.At)
+							if len(g.EdgesMatching("!eq("+txt+",nil)")) > 0 && g.DominatedFrom(from, p, []string{"!eq(" + txt + ",nil)"}) {
+								k = +1
+							} else if len(g.EdgesMatching("eq("+txt+",nil)")) > 0 && g.DominatedFrom(from, p, []string{"eq(" + txt + ",nil)"}) {
+								k = -1
+							}
+						}
+					}
 					if all == 2 {
 						all = k
 					} else if all != k {
